@@ -157,7 +157,7 @@ class Harness(object):
                                      defines=(["USE_ALLOCWRAP"] if wrap else []))
         self.env = ctx.run_env(leak=True)
 
-    def run(self, cases, timeout=600):
+    def run(self, cases, timeout=600, max_hangs=25):
         """cases: list of (id, [command lines]).  Returns (results, faults):
         results[id] = list of output lines of that case; faults = list of dicts (id, rc, stderr)
         for cases during which the process died (sanitizer report, abort, timeout)."""
@@ -190,9 +190,13 @@ class Harness(object):
             if complete and k == len(ids) - 1:
                 faults.append({"id": None, "rc": rc, "stderr": err[-6000:], "at_exit": True})
                 break
-            faults.append({"id": cur, "rc": rc, "stderr": err[-6000:]})
+            faults.append({"id": cur, "rc": rc, "stderr": err[-6000:], "hang": rc in (95, 124)})
             results[cur].append("FAULT rc=%d" % rc)
             todo = todo[k + 1:]
+            if len([f for f in faults if f.get("hang")]) >= max_hangs:
+                faults.append({"id": None, "rc": rc, "stderr": "run abandoned after %d inputs on which the library did not return; "
+                               "%d inputs not executed" % (max_hangs, len(todo)), "abandoned": True})
+                break
         return results, faults
 
 
@@ -599,3 +603,272 @@ def read_touchstone(text):
             den.append(list(m))
     res.update(ports=ports, freqs=freqs, mats=mats, denorm=den, raws=raws, reference=[R] * ports)
     return res
+
+
+# --------------------------------------------------------------------------------------------
+# generator of equivalent spellings (C08) -- the inverse of the format descriptions
+# --------------------------------------------------------------------------------------------
+UNITS = {"HZ": 1.0, "KHZ": 1e3, "MHZ": 1e6, "GHZ": 1e9}
+
+
+def num_text(x, rng, style=None):
+    """A decimal spelling of the double x that reads back to x (17 significant digits)."""
+    style = style or rng.choice(["repr", "e", "E", "plus"])
+    if x != x or math.isinf(x):
+        return repr(x)
+    if style == "repr":
+        s = repr(x)
+    elif style == "e":
+        s = "%.17e" % x
+    elif style == "E":
+        s = "%.17E" % x
+    else:
+        s = ("+" if x >= 0 else "") + repr(x)
+    if s.endswith(".0") and rng.random() < 0.5:
+        s = s[:-2] if rng.random() < 0.5 else s[:-1]
+    return s
+
+
+def pair_text(x, fmt, rng):
+    if fmt == "RI":
+        a, b = x.real, x.imag
+    elif fmt == "MA":
+        a, b = abs(x), math.degrees(cmath.phase(x))
+    else:
+        a, b = 20 * math.log10(abs(x)), math.degrees(cmath.phase(x))
+    return num_text(a, rng), num_text(b, rng)
+
+
+def rcase(s, rng, mode):
+    if mode == "upper":
+        return s.upper()
+    if mode == "lower":
+        return s.lower()
+    if mode == "random":
+        return "".join(ch.upper() if rng.random() < 0.5 else ch.lower() for ch in s)
+    return s
+
+
+def normalise_v1(typ, m, R):
+    if typ == "Z":
+        return [x / R for x in m]
+    if typ == "Y":
+        return [x * R for x in m]
+    if typ == "H":
+        return [m[0] / R, m[1], m[2], m[3] * R]
+    if typ == "G":
+        return [m[0] * R, m[1], m[2], m[3] / R]
+    return list(m)
+
+
+def gen_touchstone(truth, sp, rng):
+    """truth: dict type, ports, freqs (Hz), R, reference (list or None), mats (actual values).
+    sp: dict version (1|2), unit, fmt, mform (FULL|UPPER|LOWER), order (12_21|21_12), case,
+    decorate (bool), opt_order (list), omit_defaults (bool), noise (bool), crlf (bool), kw_order."""
+    n = truth["ports"]
+    typ = truth["type"]
+    R = truth["R"]
+    case = sp.get("case", "asis")
+    deco = sp.get("decorate", False)
+    mult = UNITS[sp["unit"]]
+    fmt = sp["fmt"]
+    lines = []
+
+    def comment():
+        return "! " + rng.choice(["comment", "# not an option line", "[Version] 9.9", "1 2 3", "R 75 GHz", ""])
+
+    def ws():
+        return rng.choice([" ", "  ", "\t", " \t "]) if deco else " "
+
+    def emit(tokens, can_comment=True):
+        s = ws().join(tokens)
+        if deco:
+            if rng.random() < 0.3:
+                s = ws() + s
+            if rng.random() < 0.3:
+                s = s + ws()
+            if can_comment and rng.random() < 0.25:
+                s = s + " " + comment()
+        lines.append(s)
+        if deco and rng.random() < 0.2:
+            lines.append(rng.choice(["", "   ", comment(), "\t"]))
+    if deco and rng.random() < 0.5:
+        lines.append(comment())
+    if sp["version"] == 2:
+        emit([rcase("[Version]", rng, case), "2.0"])
+    # option line
+    fields = {"unit": [rcase({"HZ": "Hz", "KHZ": "kHz", "MHZ": "MHz", "GHZ": "GHz"}[sp["unit"]], rng, case)],
+              "type": [rcase(typ, rng, case)], "fmt": [rcase(fmt, rng, case)],
+              "R": [rcase("R", rng, case), num_text(R, rng, "repr")]}
+    opt = ["#"]
+    for k in sp.get("opt_order", ["unit", "type", "fmt", "R"]):
+        if sp.get("omit_defaults") and ((k == "unit" and sp["unit"] == "GHZ") or (k == "type" and typ == "S") or
+                                        (k == "fmt" and fmt == "MA") or (k == "R" and R == 50.0)):
+            continue
+        opt += fields[k]
+    emit(opt)
+
+    def fnum(f):
+        # exact when f / mult is exact; otherwise nearest spelling
+        return num_text(f / mult, rng)
+    if sp["version"] == 1:
+        for f, m in zip(truth["freqs"], truth["mats"]):
+            mn = normalise_v1(typ, m, R)
+            if n == 2:
+                order = [0, 2, 1, 3]                       # N11 N21 N12 N22
+                toks = [fnum(f)]
+                for k in order:
+                    toks += pair_text(mn[k], fmt, rng)
+                emit(toks)
+            else:
+                for r in range(n):
+                    toks = [fnum(f)] if r == 0 else []
+                    for c in range(n):
+                        toks += pair_text(mn[r * n + c], fmt, rng)
+                    emit(toks)
+        if sp.get("noise") and n == 2:
+            for k in range(2):
+                emit([fnum(truth["freqs"][0] * (1 + k)), "1.5", "0.3", "45", "0.2"])
+    else:
+        mform = sp.get("mform", "FULL")
+        kws = [[rcase("[Number of Ports]", rng, case), str(n)]]
+        rest = [[rcase("[Number of Frequencies]", rng, case), str(len(truth["freqs"]))]]
+        if n == 2:
+            rest.append([rcase("[Two-Port Order]", rng, case), sp.get("order", "12_21")])
+        ref = truth.get("reference")
+        if ref is not None or sp.get("explicit_reference"):
+            rv = ref if ref is not None else [R] * n
+            rest.append([rcase("[Reference]", rng, case)] + [num_text(x, rng, "repr") for x in rv])
+        if mform != "FULL" or sp.get("explicit_full"):
+            rest.append([rcase("[Matrix Format]", rng, case), rcase(mform.capitalize(), rng, case)])
+        if sp.get("noise") and n == 2:
+            rest.append([rcase("[Number of Noise Frequencies]", rng, case), "2"])
+        if sp.get("kw_shuffle"):
+            rng.shuffle(rest)
+        if sp.get("information"):
+            rest.append([rcase("[Begin Information]", rng, case)])
+            rest.append([rcase("[End Information]", rng, case)])
+        for kw in kws + rest:
+            if deco and len(kw) > 3 and rng.random() < 0.5:
+                emit(kw[:2])
+                emit(kw[2:])
+            else:
+                emit(kw)
+        emit([rcase("[Network Data]", rng, case)])
+        for f, m in zip(truth["freqs"], truth["mats"]):
+            toks = [fnum(f)]
+            if mform == "FULL":
+                idx = [(r, c) for r in range(n) for c in range(n)]
+                if n == 2 and sp.get("order") == "21_12":
+                    idx = [(0, 0), (1, 0), (0, 1), (1, 1)]
+            elif mform == "UPPER":
+                idx = [(r, c) for r in range(n) for c in range(r, n)]
+            else:
+                idx = [(r, c) for r in range(n) for c in range(0, r + 1)]
+            for (r, c) in idx:
+                toks += pair_text(m[r * n + c], fmt, rng)
+            if deco:
+                # free layout: break the token list anywhere
+                while toks:
+                    k = rng.randint(1, max(1, min(len(toks), 9)))
+                    emit(toks[:k])
+                    toks = toks[k:]
+            else:
+                per = 1 + 2 * min(n, 4)
+                emit(toks[:per])
+                toks = toks[per:]
+                while toks:
+                    emit(toks[:8])
+                    toks = toks[8:]
+        if sp.get("noise") and n == 2:
+            emit([rcase("[Noise Data]", rng, case)])
+            for k in range(2):
+                emit([fnum(truth["freqs"][0] * (1 + k)), "1.5", "0.3", "45", "0.2"])
+        if not sp.get("omit_end"):
+            emit([rcase("[End]", rng, case)])
+    eol = "\r\n" if sp.get("crlf") else "\n"
+    text = eol.join(lines) + (eol if not sp.get("no_final_newline") else "")
+    return text
+
+
+def gen_npd(truth, sp, rng):
+    """truth: type (S/Z/..ZIN), ports, freqs, z0 (list) or fz0 (per frequency), mats.
+    sp: forms (list of RI/MA/DB for the truth's own type, first is what must be loaded or better),
+    header order, legacy rows/columns, separators, decoration."""
+    n = truth["ports"]
+    typ = truth["type"]
+    deco = sp.get("decorate", False)
+    forms = sp.get("forms", ["RI"])
+    names = []
+    for f in forms:
+        nm = ("Zin" if typ == "ZIN" else typ) + {"RI": "ri", "MA": "ma", "DB": "dB"}[f]
+        names.append(rcase(nm, rng, sp.get("case", "asis")))
+    extra = sp.get("extra_scalar", [])
+    hdr = []
+    if sp.get("legacy_dims"):
+        dims = [["#:rows", str(n)], ["#:columns", str(n)]]
+    else:
+        dims = [["#:ports", str(n)]]
+    hdr += dims
+    others = [["#:version", "1.0"], ["#:frequencies", str(len(truth["freqs"]))]]
+    plist = names + extra
+    if sp.get("param_sep", ",") == ",":
+        others.append(["#:parameters", ",".join(plist)])
+    elif sp.get("param_sep") == " ":
+        others.append(["#:parameters"] + plist)
+    else:
+        others.append(["#:parameters", ", ".join(plist)])
+    if sp.get("precision_lines", True):
+        others += [["#:fprecision", "9"], ["#:dprecision", "12"]]
+    z0line = None
+    if truth.get("fz0") is not None:
+        z0line = ["#:z0", rcase("PER-FREQUENCY", rng, sp.get("case", "asis"))]
+    elif truth.get("z0") is not None and not (sp.get("omit_default_z0") and all(z == 50 for z in truth["z0"])):
+        z0line = ["#:z0"]
+        for z in truth["z0"]:
+            z0line += [num_text(z.real, rng), num_text(z.imag, rng, "plus") + ("j" if sp.get("j_suffix", True) else "")]
+    if sp.get("shuffle_header"):
+        rng.shuffle(others)
+        pos = rng.randint(0, len(others))
+        allh = others[:pos] + dims + others[pos:]
+        if z0line:
+            k = max(allh.index(d) for d in dims)
+            allh.insert(rng.randint(k + 1, len(allh)), z0line)
+    else:
+        allh = [others[0]] + dims + others[1:] + ([z0line] if z0line else [])
+    lines = []
+
+    def ws():
+        return rng.choice([" ", "  ", "\t", " \t "]) if deco else " "
+
+    def comment():
+        return rng.choice(["# comment", "#", "# field 1: bogus", "#:", "#: 7", "#!x"])
+    if sp.get("magic", True):
+        lines.append("#NPD")
+    for h in allh:
+        s = ws().join(h)
+        if deco and rng.random() < 0.3:
+            s = ws() + s
+        if deco and rng.random() < 0.3 and h[0] != "#:parameters":
+            s = s + ws() + comment()
+        lines.append(s)
+        if deco and rng.random() < 0.3:
+            lines.append(rng.choice(["", "  ", comment(), "\t"]))
+    for i, (f, m) in enumerate(zip(truth["freqs"], truth["mats"])):
+        toks = [num_text(f, rng)]
+        if truth.get("fz0") is not None:
+            for z in truth["fz0"][i]:
+                toks += [num_text(z.real, rng), num_text(z.imag, rng)]
+        for form in forms:
+            for x in m:
+                toks += pair_text(x, form, rng)
+        for e in extra:
+            cnt = n * (n - 1) if e.upper() == "IL" else n
+            toks += [num_text(rng.uniform(0, 30), rng) for _ in range(cnt)]
+        s = ws().join(toks)
+        if deco and rng.random() < 0.3:
+            s = s + ws() + comment()
+        lines.append(s)
+        if deco and rng.random() < 0.3:
+            lines.append(rng.choice(["", comment(), "   "]))
+    return "\n".join(lines) + ("\n" if not sp.get("no_final_newline") else "")
